@@ -213,6 +213,12 @@ class SSHSOCKSForwarder(SSHLocalForwarder):
         self._send_socks5_ok()
         self._connect()
 
+    def close(self) -> None:
+        """Close this SOCKS forwarder, ending any request parsing"""
+
+        self._recv_handler = None
+        super().close()
+
     def data_received(self, data: bytes, datatype: DataType = None) -> None:
         """Handle incoming data from the SOCKS client"""
 
